@@ -19,6 +19,11 @@ package main
 //   c20IsNilPointer     the body of isNilPointer (statements joined by "; ")
 //   c20VisitKeys        per resolve*Ref routine: the definition of `key` and the first arguments of its calls of
 //                       shouldVisitRef / visitRef / unvisitRef (since 7245059 the in-progress set is keyed by kind and text)
+//   c20SwallowConds     per resolve*Ref routine: the condition under which the errMUST… sentinel of the chain call is
+//                       swallowed (`return nil`); since 3c3716e it also demands `resolved.isEmpty()`
+//   c20AddToSpecConds   per add<Kind>ToSpec function of internalize_refs.go: the condition of its first `if`
+//                       (since 05c5875 a reference without value is left alone)
+//   c20HeaderStack      the `if` / `range` texts of (*Header).Validate that mention its validation stack (4c7d612)
 //   c20PathItemIsEmpty  the fields (*PathItem).isEmpty looks at, in order (path_item.go)
 //   c20PathItemOps      the operation fields (*PathItem).Operations() collects, in order
 //   c20DerefCalls       (caller, callee) between InternalizeRefs / deref… functions of internalize_refs.go
@@ -75,7 +80,7 @@ func extractC20Loader(repo string) (string, error) {
 		f, err := parser.ParseFile(fset, fn, src, 0)
 		return fset, f, src, err
 	}
-	var resolvers, readable, otherAsserts, panics, edges, emptyChecks, drillConds, derefCalls, derefGuards, visitKeys []string
+	var resolvers, readable, otherAsserts, panics, edges, emptyChecks, drillConds, derefCalls, derefGuards, visitKeys, swallow, addConds, headerStack []string
 	isNilBody := ""
 	oneLine := func(t string) string { return strings.Join(strings.Fields(t), " ") }
 	selectors := func(f *ast.File, want func(fn string) bool) []string {
@@ -184,6 +189,15 @@ func extractC20Loader(repo string) (string, error) {
 				return true
 			})
 			visitKeys = append(visitKeys, fmt.Sprintf("(%q, %q, %q)", name, keyDef, strings.Join(keyArgs, " ")))
+			ast.Inspect(fd.Body, func(n ast.Node) bool {
+				if is, ok := n.(*ast.IfStmt); ok {
+					c := oneLine(c20Src(fset, src, is.Cond))
+					if strings.HasPrefix(c, "err == errMUST") {
+						swallow = append(swallow, fmt.Sprintf("(%q, %q)", name, c))
+					}
+				}
+				return true
+			})
 		}
 		if isResolver {
 			cond := ""
@@ -273,15 +287,23 @@ func extractC20Loader(repo string) (string, error) {
 	loaderSel := selectors(lf, func(fn string) bool { return walk[fn] })
 
 	// ---- internalize_refs.go
-	ifset, inf, _, err := parse("internalize_refs.go")
+	ifset, inf, isrc, err := parse("internalize_refs.go")
 	if err != nil {
 		return "", err
 	}
-	_ = ifset
 	for _, d := range inf.Decls {
 		fd, ok := d.(*ast.FuncDecl)
 		if !ok || fd.Body == nil {
 			continue
+		}
+		if strings.HasPrefix(fd.Name.Name, "add") && strings.HasSuffix(fd.Name.Name, "ToSpec") {
+			cond := ""
+			if len(fd.Body.List) > 0 {
+				if is, ok := fd.Body.List[0].(*ast.IfStmt); ok {
+					cond = oneLine(c20Src(ifset, isrc, is.Cond))
+				}
+			}
+			addConds = append(addConds, fmt.Sprintf("(%q, %q)", fd.Name.Name, cond))
 		}
 		isWalk := fd.Name.Name == "InternalizeRefs" || strings.HasPrefix(fd.Name.Name, "deref")
 		seenCallee := map[string]bool{}
@@ -307,6 +329,24 @@ func extractC20Loader(repo string) (string, error) {
 	internSel := selectors(inf, func(fn string) bool {
 		return fn == "InternalizeRefs" || strings.HasPrefix(fn, "deref") || (strings.HasPrefix(fn, "add") && strings.HasSuffix(fn, "ToSpec"))
 	})
+
+	// ---- header.go: the validation stack of (*Header).Validate
+	if hfset, hf, hsrc, err := parse("header.go"); err == nil {
+		for _, d := range hf.Decls {
+			fd, ok := d.(*ast.FuncDecl)
+			if !ok || fd.Body == nil || fd.Recv == nil || fd.Name.Name != "Validate" || c20Src(hfset, hsrc, fd.Recv.List[0].Type) != "*Header" {
+				continue
+			}
+			for _, st := range fd.Body.List {
+				t := oneLine(c20Src(hfset, hsrc, st))
+				if strings.Contains(t, "headerValidationStackKey") || strings.HasPrefix(t, "for _, h := range stack") {
+					headerStack = append(headerStack, fmt.Sprintf("%q", t))
+				}
+			}
+		}
+	} else {
+		return "", err
+	}
 
 	// ---- path_item.go: isEmpty and Operations
 	var piEmpty, piOps []string
@@ -409,7 +449,7 @@ func extractC20Loader(repo string) (string, error) {
 	sb.WriteString("-- generated by go/cmd/extract (table C20Loader) from openapi3/loader.go, schema.go, internalize_refs.go — do not edit\n")
 	sb.WriteString("import KinModel.LoadTypes\nnamespace KinModel.Gen\nopen KinModel.LoadTypes\n\n")
 	fmt.Fprintf(&sb, "-- rows: %d\n", len(resolvers)+len(readable)+len(otherAsserts)+len(panics)+len(edges)+len(loaderSel)+len(internSel)+
-		len(walkFuncs)+len(emptyChecks)+len(drillConds)+1+len(derefCalls)+len(derefGuards)+len(piEmpty)+len(piOps)+len(visitKeys))
+		len(walkFuncs)+len(emptyChecks)+len(drillConds)+1+len(derefCalls)+len(derefGuards)+len(piEmpty)+len(piOps)+len(visitKeys)+len(swallow)+len(addConds)+len(headerStack))
 	sb.WriteString("def c20Resolvers : List ResolverRow := [\n  " + strings.Join(resolvers, ",\n  ") + "]\n\n")
 	sb.WriteString("def c20Readable : List String := [" + strings.Join(readable, ", ") + "]\n\n")
 	sb.WriteString("def c20OtherAsserts : List (String × String) := [\n  " + strings.Join(otherAsserts, ",\n  ") + "]\n\n")
@@ -422,6 +462,9 @@ func extractC20Loader(repo string) (string, error) {
 	sb.WriteString("def c20DrillConds : List String := [\n  " + strings.Join(drillConds, ",\n  ") + "]\n\n")
 	fmt.Fprintf(&sb, "def c20IsNilPointer : String := %q\n\n", isNilBody)
 	sb.WriteString("def c20VisitKeys : List (String × String × String) := [\n  " + strings.Join(visitKeys, ",\n  ") + "]\n\n")
+	sb.WriteString("def c20SwallowConds : List (String × String) := [\n  " + strings.Join(swallow, ",\n  ") + "]\n\n")
+	sb.WriteString("def c20AddToSpecConds : List (String × String) := [\n  " + strings.Join(addConds, ",\n  ") + "]\n\n")
+	sb.WriteString("def c20HeaderStack : List String := [\n  " + strings.Join(headerStack, ",\n  ") + "]\n\n")
 	sb.WriteString("def c20PathItemIsEmpty : List String := [" + strings.Join(piEmpty, ", ") + "]\n\n")
 	sb.WriteString("def c20PathItemOps : List String := [" + strings.Join(piOps, ", ") + "]\n\n")
 	sb.WriteString("def c20DerefCalls : List (String × String) := [\n  " + strings.Join(derefCalls, ",\n  ") + "]\n\n")
